@@ -157,6 +157,7 @@ Definition spec_e2e (i o : term) : bool :=
                    (match gl (gn i 2) with [] => true | _ => match bases with [] => false | _ => true end end) in
   if negb fetchable then true
   else if negb (in_domain (srcs ++ bases)) then true
+  else if negb (forallb types_combinable (srcs ++ bases)) then true   (* CompatibilizeSampleTypes refuses them (reported) *)
   else if negb (String.eqb (gs (gn o 0)) "ok") then false                       (* compatible sources must come out merged *)
   else
     let profs := flat_map (fun t => if String.eqb (gs (gn t 0)) "profile" then [profile_of (gn t 1)] else []) outs in
